@@ -32,8 +32,8 @@ CLAIMED = {
         "DESIGN.md §5 C19",
     ),
     "C17": (
-        "runtime reference-model monitor: f64 Bernstein form and derivative as oracle for eval/fast_eval/tangent; for approximate() the caller-supplied halt closure is harness code whose argument/result log is replayed as a depth-first bisection of [0,1], so the whole recursion tree and every returned point are checked bit-for-bit",
-        "Control polygons of six types (f32, Vec2/3, Point2/3, Color4f) over magnitudes 1e-3..1e4 incl. coincident, collinear, repeated and lattice controls: cubic Bézier at parameters from a palette (<0, 0, ±ulp, 1, >1, random, NaN) — both evaluators vs Bernstein (1e-5·max|control|), exact end points at and beyond the ends, control bounding box, tangent vs derivative; splines of 1..8 segments at every join k/n and its two f32 neighbours plus the palette — equals the segment's cubic, passes through every third control point, exact ends, no panic for any t; approximate() with halt ∈ {always, never, NaN-comparison, thresholds}: halt's argument is curve(mid) − chord midpoint, a node is a leaf iff halt said true or the depth bound 10+⌊log2 len⌋ is reached, output = curve points at strictly increasing dyadic parameters + the last control point, bit-for-bit.",
+        "runtime reference-model monitor: f64 Bernstein form and derivative as oracle for eval/fast_eval/tangent; for approximate() the aligned dyadic partition of [0,1] is fitted bit-for-bit to the returned polyline and every fitted piece must meet the caller's criterion (the halt closure is harness code: evaluated by the monitor on curve(mid) − chord midpoint, or found as a true call in its log) or sit at the deepest level present",
+        "Control polygons of six types (f32, Vec2/3, Point2/3, Color4f) over magnitudes 1e-3..1e4 incl. coincident, collinear, repeated and lattice controls: cubic Bézier at parameters from a palette (<0, 0, ±ulp, 1, >1, random, NaN) — both evaluators vs Bernstein (1e-5·max|control|), exact end points at and beyond the ends, control bounding box, tangent vs derivative; splines of 1..8 segments at every join k/n and its two f32 neighbours plus the palette — equals the segment's cubic, passes through every third control point, exact ends, no panic for any t; approximate() with halt ∈ {always, never, NaN-comparison, thresholds}: first/last point = first/last control point bit-for-bit, points = curve points at strictly increasing aligned dyadic parameters (fitted partition, bit-for-bit), every piece met the criterion or sits at the depth bound (the deepest level present; its value is recorded, not fixed); curves with repeated point values make parameters ambiguous and are counted, not judged.",
         "Tolerances: 1e-5·max|control| (splines: 2e-5 plus a segment-parameter rounding term), tangents 12×. Spline tangent is w.r.t. the segment-local parameter, as the code documents.",
         "DESIGN.md §5 C17",
     ),
@@ -131,12 +131,12 @@ ADDED = {
     "C02": " Added since: a stream of scenes whose vertices lie bit-exactly on frustum planes (vertex/edge/whole triangle in a plane, touching from outside, corner touches) in multi-triangle calls, frames up to 4096 px (elongated and realistic sizes), an extra pass with every fragment written for scenes whose flags could hide a stray fragment, mirrored viewports, free (log-uniform) near/far/focal, off-axis and flipped orthographic boxes, triangles naming a vertex twice; generators aimed at the two defects the thorough tier found (F14, F15).",
     "C03": " Added since: scale invariance (clip(2^k·T) = 2^k·clip(T) bit for bit, k down to −120), near-plane relative distances 1e-7..1e-2, degenerate inputs range-checked, batches of 0/1/64/1000 triangles with each member's output judged absolutely, eleven attribute types, position tolerance and band tightened to 3e-6·scale.",
     "C04": " Added since: triangles reaching into negative coordinates judged on the pixels unsigned coordinates can address, small triangles at offsets up to 65536, all six vertex orders at extents up to 2048, a per-triangle drift allowance (rows stepped, not the frame size) for known finding F9, judging continues past drift-class hits.",
-    "C05": " Added since: eleven attribute types (Angle, Point3, nested tuples, colour+point), reciprocal depths from 1e-4 to 1e3 and attribute magnitudes over fourteen decades, tied/constant/zero attribute components, rounding floor scaled by the depth ratio.",
+    "C05": " Added since: eleven attribute types (Angle, Point3, nested tuples, colour+point), reciprocal depths from 1e-4 to 1e3 and attribute magnitudes over fourteen decades, tied/constant/zero attribute components, rounding floor scaled by the depth ratio, a large-extent stream (256..2048 px) under the F9 drift model, triangles hanging off the top/left border (negative coordinates).",
     "C06": " Added since: histories over prior frames of every depth (incl. ±inf), depths over twelve decades and a few ulps apart, per-call depth_sort settings and empty calls, windowed targets whose colour and depth parents differ in size and offset, cut-out materials; painter clause on colour-only targets, with slabs crossing the near/far planes and with up to 100 triangles, with a floor on pixels where the sort matters.",
-    "C07": " Added since: face culling crossed with the write masks, calls with an empty triangle list, prior depths ±inf/−0.0/−1e30, a shader that discards every fragment, culling under mirrored viewports; the shader-invocation count is recorded, not judged.",
+    "C07": " Added since: face culling crossed with the write masks, calls with an empty triangle list, prior depths ±inf/−0.0/−1e30, a shader that discards every fragment, culling under mirrored viewports; the shader-invocation count is recorded, not judged; a third of the scenes (empty calls included) go through Batch::render; a mismatch with the submission-order model is a violation only if no per-pixel draw order within each call and neither tie rule for Less/Greater explains buffers and the written-fragment total; clip pieces thinner than 0.02 px count as degenerate for the culling statistics.",
     "C08": " Added since: a confinement flood test (a quad covering the whole view must light exactly the viewport ∩ frame, pixels on the clip fan's diagonals excepted), five viewport spellings incl. open-ended ranges, near/far skip band scaled with the projection's z row.",
     "C09": " Added since: all three axis images of orient_y/orient_z against the f64 construction (sign pinned by the hint), dense 4×4 matrices (general last row) for determinant/compose/multiplicativity, inverse gated on the library's own determinant instead of |det| ≤ 1e-4, uniform scales 0.03..30, angles from 1e-6 to 1e4 rad.",
-    "C11": " Added since: 15 range spellings (mixed inclusive/exclusive axes, ..=b, explicit Bound pairs with an excluded start), out-of-bounds forms mirrored on both axes, the owned buffer as receiver itself and via Buf2::slice_mut / the AsMutSlice2 trait, five kinds of copy_from source, stride()/is_contiguous() observed, constructor contents (new, new_from, new_with, data_mut) and rejects of dimensions whose size arithmetic wraps in 32 bits, immutable slicing out of bounds must panic too.",
+    "C11": " Added since: 15 range spellings (mixed inclusive/exclusive axes, ..=b, explicit Bound pairs with an excluded start), out-of-bounds forms mirrored on both axes, the owned buffer as receiver itself and via Buf2::slice_mut / the AsMutSlice2 trait, five kinds of copy_from source, stride()/is_contiguous() observed (judged for views of two or more non-empty rows), constructor contents (new, new_from, new_with, data_mut) and rejects of dimensions whose size arithmetic wraps in 32 bits, immutable slicing out of bounds must panic too.",
     "C12": " Added since: per-axis expectations (a special value on one axis does not excuse the other), textures up to 4097 px a side, relative texel boundaries k/size ± 1 ulp, coordinates up to 2^31 on power-of-two textures, borrowed textures built by Slice2::new with a stride and as slices of slices; the same addressing through both samplers and both entry points in every float backend build (C20's binaries).",
     "C13": " Added since: seven ways of handing an image to the writer (by value, MutSlice2, Slice2::new with stride and surplus, slice of slice, …), a writer that takes short writes with EINTR, an independent P6 reader of the written stream, images larger than the 8 KiB I/O buffers, save_ppm/load_pnm through real files, readers delivering short chunks with EINTR and failing mid-stream, form feed as whitespace, up to three comments per gap with arbitrary bytes.",
     "C14": " Added since: an independent reference reader that judges mutated-but-still-well-formed input, decimal literals next to f32 midpoints (incl. strictly between the midpoint and its f64 neighbours), literal syntax variants (−0, leading/trailing point, padded exponents, leading zeros), lines of thousands of characters, meshes whose indices exceed 8 and 16 bits, non-ASCII bytes in comments, read_obj through short-chunk readers (raw and buffered) and load_obj through real files.",
@@ -145,7 +145,7 @@ ADDED = {
     "C17": " Added since: Angle and Color3f, polygons of small extent far from the origin and with per-point magnitudes, t palette incl. tiny negatives, 1 + ulps, ±inf and huge values, tangents judged at ends and joins, an extent-relative tangent bound, BezierSpline::new's length contract and from_rays.",
     "C18": " Added since: wrap inputs bit-equal to the interval ends, an ulp either side of both, and up to 10^4 interval lengths away; intervals as users write them (degs/turns constructors, min up to ±1e4); the upper end is accepted only where rounding can produce it; zeros of either sign in vectors; compositions within 0.01° of the poles.",
     "C19": " Added since: 30 fixed float ranges (zero and subnormal ends, power-of-two ends reached by rounding, overflowing width), random ranges × the mantissas where rounding bites, three low-bit completions per mantissa, integer extremes in either half of the output word, states solved to land within 2e-6 of the centre of the ball and on the rim of the disk, samples() and generator end-state checks.",
-    "C20": " Added since: every backend built in a plain release profile as well (8 builds), domain edge points (signed zeros, axes of atan2, ±1), zero-base powf, a wide-domain block (log-uniform magnitudes to 1e±30 for periodic functions, atan2 of independent magnitudes, asin/acos within ulps of ±1, exp over its whole range), full-range sqrt/recip_sqrt by bit pattern, wrap judged against the std result incl. exact multiples, both samplers with special coordinates, the functions reached through Angle / free functions / Vector::len.",
+    "C20": " Added since: every backend built in a plain release profile as well (8 builds), domain edge points (signed zeros, axes of atan2, ±1), zero-base powf, a wide-domain block (log-uniform magnitudes to 1e±30 for periodic functions, atan2 of independent magnitudes, asin/acos within ulps of ±1, exp over its whole range), full-range sqrt/recip_sqrt by bit pattern, wrap judged by range and congruence and, at the seam without rounding, equality with min; abs on every bit pattern; normalize over every magnitude whose squared length f32 holds (subnormal squared lengths on the exact backends), both samplers with special coordinates, the functions reached through Angle / free functions / Vector::len.",
 }
 
 NOT_APPLICABLE = {
